@@ -75,20 +75,38 @@ const (
 	idlePolls = 80 // consecutive polls without any activity while the transport is drained, after which quiescence is examined
 )
 
-// go9pQuiescent decides, from a goroutine dump, whether the library can still
-// do anything on its own: every goroutine with a go9p frame is blocked (channel,
-// select, mutex, cond) and the receive loop named by recvFn is parked in the
-// harness transport's Read. Together with a drained transport and a harness
-// that is only waiting, this state cannot change any more, so "the missing
-// reply will never come" is a fact, not a timeout.
-func go9pQuiescent(recvFn string) bool {
+// go9pState decides, from a goroutine dump, whether the library can still do
+// anything on its own. "parked": every goroutine with a go9p frame is blocked
+// (channel, select, mutex, cond) and the receive loop named by recvFn is parked
+// in the harness transport's Read; together with a drained transport and a
+// harness that is only waiting, this state cannot change any more, so "the
+// missing reply will never come" is a fact, not a timeout. "gone": every
+// goroutine with a go9p frame is blocked and no goroutine runs the receive
+// loop any more (it has returned, with or without closing the transport):
+// whatever is still unread will never be read. "": something is runnable
+// (a goroutine of the library, or the harness's reader of the reply stream).
+func go9pState(recvFn string) string {
 	buf := make([]byte, 1<<23)
 	n := runtime.Stack(buf, true)
 	if n == len(buf) {
-		return false
+		return ""
 	}
 	parked := false
 	for _, blk := range strings.Split(string(buf[:n]), "\n\n") {
+		if strings.Contains(blk, "\nverif/internal/rawc.(*C).reader(") {
+			// the harness's own reader of the server's replies must have nothing
+			// left to do either: parked in the (then empty) transport. A reader
+			// that is runnable or running (possibly stalled by the machine) may
+			// still deliver replies the server has written long ago.
+			head, _, _ := strings.Cut(blk, "\n")
+			if !strings.Contains(head, "[sync.Cond.Wait") || !strings.Contains(blk, "xport.(*half).read") {
+				if os.Getenv("C13_DEBUG") != "" {
+					fmt.Fprintf(os.Stderr, "harness reader not parked:\n%s\n", blk)
+				}
+				return ""
+			}
+			continue
+		}
 		if !strings.Contains(blk, "github.com/rminnich/go9p.") {
 			continue
 		}
@@ -103,23 +121,28 @@ func go9pQuiescent(recvFn string) bool {
 			if os.Getenv("C13_DEBUG") != "" {
 				fmt.Fprintf(os.Stderr, "not quiescent:\n%s\n", blk)
 			}
-			return false
+			return ""
 		}
 		if strings.Contains(blk, "\ngithub.com/rminnich/"+recvFn+"(") { // a frame, not a "created by" line
 			if !strings.Contains(head, "[sync.Cond.Wait") || !strings.Contains(blk, "xport.(*half).read") {
 				if os.Getenv("C13_DEBUG") != "" {
 					fmt.Fprintf(os.Stderr, "receive loop not parked in the transport:\n%s\n", blk)
 				}
-				return false
+				return ""
 			}
 			parked = true
 		}
 	}
-	if !parked && os.Getenv("C13_DEBUG") != "" {
-		fmt.Fprintf(os.Stderr, "no receive loop found in %d bytes of stacks\n", n)
+	if !parked {
+		if os.Getenv("C13_DEBUG") != "" {
+			fmt.Fprintf(os.Stderr, "no receive loop found in %d bytes of stacks\n", n)
+		}
+		return "gone"
 	}
-	return parked
+	return "parked"
 }
+
+func go9pQuiescent(recvFn string) bool { return go9pState(recvFn) == "parked" }
 
 type hangErr string
 
